@@ -74,6 +74,7 @@ func (t *transport) WriteMsg(msg messages.Common, requireToAck bool) error {
 	if err != nil {
 		return errors.Wrap(err, "sending request")
 	}
+	verifPoint("wire.written", int64(msg.GetMsgID()))
 	return nil
 }
 
